@@ -4,7 +4,7 @@ from ..affine import Lin, decide, entails
 from ..front import dotted, const_value, unparse, walk_no_nested, parent_map, kwarg
 from ..core import holds, violation, unrecognised
 from ..flow import AbsInt
-from ..rules import decide_states, fmt_trace, relevant_guards, module_state_rule
+from ..rules import decide_states, fmt_trace, relevant_guards, module_state_rule, loop_headers_rule
 
 ID = "C12"
 MIN_INSTANCES = 12
@@ -32,6 +32,50 @@ def run(repo, tier):
     out += race_rules(repo)
     out += dtype_threshold_rules(repo)
     out += module_state_rule(repo, F)
+    out += loop_headers_rule(repo.func(F + "._fast_hits"), ["range(n_motifs)", "numba.prange(n_motifs)", "range(n_chroms)", None, "range(n)"], "LOOPS",
+                             "every motif, every sequence and every motif column is visited by the scan kernel")
+    out += loop_headers_rule(repo.func(F + "._all_pwm_to_mapping"), ["numba.prange(n)"], "LOOPS", "a p-value table is built for every motif")
+    out += loop_headers_rule(repo.func(F + ".fimo"), ["motifs_", "range(n_motifs)", "enumerate(alpha_idxs)", "fasta.items()", "range(n_)", "range(n_)"], "LOOPS",
+                             "thresholds are computed for every scanned PWM and results are assembled for every reported motif")
+    out += driver_rules(repo)
+    return out
+
+
+def driver_rules(repo):
+    f = repo.func(F + ".fimo")
+    out = []
+    src = [unparse(s_) for s_ in walk_no_nested(f.node) if isinstance(s_, (ast.Assign, ast.If))]
+    asg = [unparse(s_) for s_ in walk_no_nested(f.node) if isinstance(s_, ast.Assign)]
+    role = "tensor input: sequence i occupies [i*L, (i+1)*L) of the concatenated index array"
+    if "X_lengths = numpy.arange(X.shape[0] + 1) * X.shape[-1]" in asg:
+        out.append(holds("LOOPS", f, role, "X_lengths = numpy.arange(X.shape[0] + 1) * X.shape[-1]", f.node, nontrivial=False))
+    elif "X_lengths = numpy.arange(X.shape[0]) * X.shape[-1]" in asg:
+        out.append(violation("LOOPS", f, role, "offsets stop at N-1: the last sequence is never scanned", f.node))
+    else:
+        out.append(unrecognised("LOOPS", f, role, str([a for a in asg if a.startswith("X_lengths")])))
+    role = "counts are returned exactly when return_counts is set"
+    rc = [n for n in walk_no_nested(f.node) if isinstance(n, ast.If) and "return_counts" in unparse(n.test)]
+    t = unparse(rc[0].test) if rc else ""
+    if t in ("return_counts == True", "return_counts", "return_counts is True"):
+        out.append(holds("R-SIB", f, role, t, rc[0], nontrivial=False))
+    elif t in ("return_counts != True", "return_counts == False", "not return_counts"):
+        out.append(violation("R-SIB", f, role, "`%s` returns counts when DataFrames were requested" % t, rc[0]))
+    else:
+        out.append(unrecognised("R-SIB", f, role, t))
+    role = "motif boundaries are the cumulative widths of the scanned PWMs; the kernel receives the caller's arrays in order"
+    need = ["motif_lengths = [0] + [pwm.shape[-1] for _, pwm in motifs]", "motif_lengths = numpy.cumsum(motif_lengths).astype(numpy.uint64)",
+            "motif_pwms = numpy.concatenate([pwm for _, pwm in motifs], axis=-1)", "motif_pwms = numpy.log2(motif_pwms + eps) - math.log2(0.25)"]
+    call = [n for n in walk_no_nested(f.node) if isinstance(n, ast.Call) and dotted(n.func) == "_fast_hits"]
+    okc = bool(call) and [unparse(a) for a in call[0].args] == ["X", "X_lengths", "motif_pwms", "motif_lengths", "_score_thresholds", "bin_size", "_smallest",
+                                                               "_score_to_pvals", "_score_to_pvals_lengths"]
+    ok = [x for x in asg if x in need] == need and okc
+    if ok:
+        out.append(holds("FIELDS", f, role, "log2((pwm + eps) / 0.25); cumulative widths", f.node, nontrivial=False))
+    elif any(x.startswith("motif_pwms = numpy.log2(motif_pwms + eps) - math.log2(") and x != need[3] for x in asg) or \
+            any(x.startswith("motif_pwms = numpy.log2(motif_pwms) ") for x in asg) or any(x.startswith("motif_pwms = numpy.log(") for x in asg):
+        out.append(violation("FIELDS", f, role, "log-odds are `%s`" % [x for x in asg if x.startswith("motif_pwms = numpy.log")][0], f.node))
+    else:
+        out.append(unrecognised("FIELDS", f, role, "driver statements differ from the confirmed form"))
     return out
 
 
